@@ -1,0 +1,48 @@
+//go:build verif
+
+package types
+
+import "fmt"
+
+// VerifHash exposes the internal value hash to the verification harness.
+func VerifHash(v Value) uint64 { return v.hash() }
+
+// VerifSetInvariant checks the open-addressing invariants of a Set: every stored member is
+// found again by probing from its hash through occupied slots, no two members are equal,
+// and the stored set hash is the sum of the member hashes.
+func VerifSetInvariant(s Set) error {
+	var sum uint64
+	for slot, v := range s.s {
+		if v == nil {
+			return fmt.Errorf("nil member in slot %d", slot)
+		}
+		sum += v.hash()
+		h := v.hash()
+		for {
+			ex, ok := s.s[h]
+			if !ok {
+				return fmt.Errorf("member %v (slot %d) unreachable by probing from hash %d", v, slot, v.hash())
+			}
+			if ex.Equal(v) {
+				if h != slot {
+					return fmt.Errorf("member %v stored twice (slots %d and %d)", v, h, slot)
+				}
+				break
+			}
+			h++
+		}
+	}
+	if sum != s.hashVal {
+		return fmt.Errorf("set hash %d != sum of member hashes %d", s.hashVal, sum)
+	}
+	return nil
+}
+
+// VerifRecordInvariant checks that the stored record hash equals the hash recomputed from
+// the record's current contents.
+func VerifRecordInvariant(r Record) error {
+	if want := NewRecord(r.m).hashVal; want != r.hashVal {
+		return fmt.Errorf("record hash %d != recomputed %d", r.hashVal, want)
+	}
+	return nil
+}
